@@ -50,14 +50,16 @@ theorem write_int_footprint (p : Prog) (B : Nat) (hp : Placed p B)
 /-- **C04 on the core**: a checked build either has room for the frame peak (then
 `C01.core_semantic_preservation` applies: every access stays inside the frame, which is what its
 proof establishes instruction by instruction) or reports `stack_overflow` before executing any
-statement — there is no third possibility, for any stack size (including 0) and word size. -/
-theorem core_stack_check_exact (cf : Core.Config) (body : Core.S) (hw : 2 ≤ cf.w) (hck : cf.checked = true)
-    (hB : Core.funcLen cf.checked body + stdlibLength < 256 ^ cf.w)
-    (hSE : 5 * cf.w + cf.stackWords * cf.w + cf.w < 256 ^ cf.w)
-    (hsmall : (cf.stackWords + 1) * cf.w < Core.pkS cf.w cf.w body) (hpkM : Core.pkS cf.w cf.w body < 256 ^ cf.w) :
-    ∃ mEnd, Exec (sphinx (Core.coreProg cf body)) (Core.coreInit cf body)
+statement — there is no third possibility, for any stack size (including 0), argument vector and
+word size. -/
+theorem core_stack_check_exact (cf : Core.Config) (params : List String) (args : List Int) (body : Core.S)
+    (hw : 2 ≤ cf.w) (hck : cf.checked = true)
+    (hB : Core.funcLen cf.checked body + stdlibLength < 256 ^ cf.w) (hSE : Core.F0 cf args < 256 ^ cf.w)
+    (hsmall : cf.stackWords * cf.w + args.length * cf.w + cf.w < Core.pkS cf.w (Core.entryOff cf.w params) body)
+    (hpkM : Core.pkS cf.w (Core.entryOff cf.w params) body < 256 ^ cf.w) :
+    ∃ mEnd, Exec (sphinx (Core.coreProg cf params body)) (Core.coreInit cf args body)
       [Ev.flag "stack_overflow", Ev.flag "error"] ⟨tntPc (Core.funcLen cf.checked body), mEnd⟩ :=
-  let ⟨m, h, _⟩ := Core.core_overflow cf body hw hck hB hSE hsmall hpkM
+  let ⟨m, h, _⟩ := Core.core_overflow cf params args body hw hck hB hSE hsmall hpkM
   ⟨m, h⟩
 
 /-- the digit buffer the compiler accounts for (`(8w-1)·30103/100000 + 1` bytes) is long enough for
